@@ -3,7 +3,7 @@
    Every theorem is about the model instantiated with the facts of the CURRENT source ([gen_cfg]); the generic lemmas
    hold for any configuration equal to [std_cfg], and that equality is the decidable obligation below. *)
 From Coq Require Import List NArith Bool.
-From SudachiVerif Require Import Model.Numeric Model.NumericRef Proofs.NumericProofs Proofs.NumericRefProofs.
+From SudachiVerif Require Import Model.Numeric Model.NumericRef Proofs.NumericProofs Proofs.NumericRefProofs Proofs.NumericGrouped.
 Import ListNotations.
 
 (* the facts re-extracted from numeric_parser/{mod.rs,string_number.rs} (character table, unit predicates, separators,
@@ -88,3 +88,32 @@ Theorem C15_reference_add_exact :
   exists ipc, c = RNum ipc fpn kn /\ fps = [] /\ (to_N ips + to_N ipn = to_N ipc)%N /\ length ipc = length ips.
 Proof. exact r_add_exact. Qed.
 Print Assumptions C15_reference_add_exact.
+
+(* ---- thousands separators ------------------------------------------------------------------------------------------ *)
+
+(* g0 , g1 , ... , gn (n >= 1; groups of Arabic / kanji digits of ANY length, possibly empty):
+   accepted iff well-formed, and then the normalised form is the digits without the separators; otherwise the parser
+   rejects with the COMMA error (so JoinNumericPlugin falls back to separate pieces). *)
+Theorem C15_grouped :
+  forall g0c g0 gsc gs,
+  Forall2 digit_of g0c g0 -> Forall2 (Forall2 digit_of) gsc gs -> gs <> [] ->
+  let inp := g0c ++ concat (map (cons 44%N) gsc) in
+  if groups_ok g0 gs
+  then parse gen_cfg inp = (true, 0%N, map digit_char (g0 ++ concat gs))
+  else fst (parse gen_cfg inp) = (false, 2%N).
+Proof. exact (fun g0c g0 gsc gs => grouped gen_cfg g0c g0 gsc gs C15_facts_as_modelled). Qed.
+Print Assumptions C15_grouped.
+
+Theorem C15_grouped_accepted_iff :
+  forall g0c g0 gsc gs,
+  Forall2 digit_of g0c g0 -> Forall2 (Forall2 digit_of) gsc gs -> gs <> [] ->
+  fst (fst (parse gen_cfg (g0c ++ concat (map (cons 44%N) gsc)))) = groups_ok g0 gs.
+Proof. exact (fun g0c g0 gsc gs => grouped_accepted_iff gen_cfg g0c g0 gsc gs C15_facts_as_modelled). Qed.
+Print Assumptions C15_grouped_accepted_iff.
+
+(* what well-formed means: first group 1..3 digits and not all zeros, every later group exactly three digits *)
+Theorem C15_groups_ok_spec :
+  forall g0 gs, gs <> [] ->
+  (groups_ok g0 gs = true <-> (1 <= length g0 <= 3 /\ all_zero g0 = false /\ Forall (fun g => length g = 3) gs)).
+Proof. exact groups_ok_spec. Qed.
+Print Assumptions C15_groups_ok_spec.
